@@ -45,26 +45,6 @@ impl U256 {
     pub fn as_u128(&self) -> (r: u128) ensures self@ <= U128_MAX, r as nat == self@ { unimplemented!() }
 }
 
-/// `slice::sort_by` (R5: `.sort_by(` -> `.sort_by_(`): the result is a permutation of the input
-/// (the order itself is left uninterpreted)
-pub trait SortExt<T> {
-    spec fn sv_(&self) -> Seq<T>;
-    fn sort_by_<F: Fn(&T, &T) -> core::cmp::Ordering>(&mut self, f: F)
-        ensures final(self).sv_().to_multiset() == old(self).sv_().to_multiset(), final(self).sv_().len() == old(self).sv_().len(),
-            final(self).sv_() == sorted_by_denom_spec(old(self).sv_());
-}
-pub uninterp spec fn sorted_by_denom_spec<T>(s: Seq<T>) -> Seq<T>;
-impl<T> SortExt<T> for [T] {
-    open spec fn sv_(&self) -> Seq<T> { self@ }
-    #[verifier::external_body]
-    fn sort_by_<F: Fn(&T, &T) -> core::cmp::Ordering>(&mut self, f: F) { unimplemented!() }
-}
-impl<T> SortExt<T> for Vec<T> {
-    open spec fn sv_(&self) -> Seq<T> { self@ }
-    #[verifier::external_body]
-    fn sort_by_<F: Fn(&T, &T) -> core::cmp::Ordering>(&mut self, f: F) { unimplemented!() }
-}
-
 /// `std::cmp::max` (R5)
 #[verifier::external_body]
 pub fn cmp_max(a: Uint128, b: Uint128) -> (r: Uint128) ensures r@ == (if a@ >= b@ { a@ } else { b@ }), r == a || r == b { unimplemented!() }
